@@ -379,16 +379,20 @@ fn add_graph_constant(
     } else {
         // Constant data is stored inline in model
         let graph_node = if let Some(float_data) = constant.data_as_float_data() {
-            let const_data = constant_data_from_flatbuffers_vec(storage, float_data.data(), &shape);
+            let const_data =
+                constant_data_from_flatbuffers_vec(storage, float_data.data(), &shape, name)?;
             graph.add_constant(name, const_data)
         } else if let Some(int_data) = constant.data_as_int_32_data() {
-            let const_data = constant_data_from_flatbuffers_vec(storage, int_data.data(), &shape);
+            let const_data =
+                constant_data_from_flatbuffers_vec(storage, int_data.data(), &shape, name)?;
             graph.add_constant(name, const_data)
         } else if let Some(int8_data) = constant.data_as_int_8_data() {
-            let const_data = constant_data_from_flatbuffers_vec(storage, int8_data.data(), &shape);
+            let const_data =
+                constant_data_from_flatbuffers_vec(storage, int8_data.data(), &shape, name)?;
             graph.add_constant(name, const_data)
         } else if let Some(uint8_data) = constant.data_as_uint_8_data() {
-            let const_data = constant_data_from_flatbuffers_vec(storage, uint8_data.data(), &shape);
+            let const_data =
+                constant_data_from_flatbuffers_vec(storage, uint8_data.data(), &shape, name)?;
             graph.add_constant(name, const_data)
         } else {
             return Err(load_error!(
@@ -409,15 +413,33 @@ fn constant_data_from_flatbuffers_vec<'a, T: FromByteArray + flatbuffers::Follow
     storage: &Arc<ConstantStorage>,
     fb_vec: flatbuffers::Vector<'a, T>,
     shape: &[usize],
-) -> ConstantNodeData<T> {
+    name: Option<&str>,
+) -> Result<ConstantNodeData<T>, LoadError> {
+    // Tensor constructors panic if the shape does not match the data length.
+    if checked_num_elements(shape) != Some(fb_vec.len()) {
+        return Err(load_error!(
+            GraphError,
+            name,
+            "constant shape does not match data length"
+        ));
+    }
+
     if let Some(elements) = cast_le_bytes(fb_vec.bytes()) {
         let storage =
             ArcSlice::new(storage.clone(), elements).expect("storage does not contain data");
-        ArcTensorView::from_data(shape, storage).into()
+        Ok(ArcTensorView::from_data(shape, storage).into())
     } else {
         let data: Vec<T> = fb_vec.iter().collect();
-        ArcTensor::from_data(shape, Arc::new(data)).into()
+        Ok(ArcTensor::from_data(shape, Arc::new(data)).into())
     }
+}
+
+/// Return the number of elements in a tensor with a given shape, or `None`
+/// if it exceeds `usize::MAX`.
+fn checked_num_elements(shape: &[usize]) -> Option<usize> {
+    shape
+        .iter()
+        .try_fold(1usize, |len, &size| len.checked_mul(size))
 }
 
 /// Transmute a `[u8]` to `[T]` provided it is correctly aligned and we're on
@@ -439,10 +461,12 @@ fn constant_data_from_storage_offset<T: LeBytes + FromByteArray>(
     offset: usize,
     name: Option<&str>,
 ) -> Result<ConstantNodeData<T>, LoadError> {
-    let n_elements: usize = shape.iter().product();
-    let byte_len = n_elements * std::mem::size_of::<T>();
+    let byte_range = checked_num_elements(shape)
+        .and_then(|n_elements| n_elements.checked_mul(std::mem::size_of::<T>()))
+        .and_then(|byte_len| offset.checked_add(byte_len))
+        .map(|end| offset..end);
 
-    let Some(bytes) = storage.data().get(offset..offset + byte_len) else {
+    let Some(bytes) = byte_range.and_then(|range| storage.data().get(range)) else {
         return Err(load_error!(GraphError, name, "invalid tensor data offset"));
     };
 
